@@ -386,10 +386,12 @@ class MarkupTemplate(Template):
                                              **vars):
                         yield event
 
-                    # If the match template did not actually call select to
-                    # consume the matched stream, the original events need to
-                    # be consumed here or they'll get appended to the output
-                    if not selected[0]:
+                    # If the match template did not call select, or did not
+                    # consume all of what select returned, the remaining
+                    # original events need to be consumed here or they'll get
+                    # appended to the output (and the end event of the matched
+                    # element would be missing below)
+                    if not selected[0] or 'not_buffered' in hints:
                         for event in content:
                             pass
 
